@@ -3,26 +3,26 @@
   Property theorems only.
 
   `Dok.get d k` is the element of the DOK model at index tuple `k` (stored value, else the fill value);
-  the dense side (`Spec.dSetitem`, `Spec.dSetFancy`, `Spec.dStep`, `Spec.dRun`) is NumPy's meaning of the
-  same assignments on a function `index tuple → value`.  `Agrees d r s` (Lemmas/DokRefine.lean): the
-  model's outcome `r` (array afterwards, exception if any) of an assignment on state `d` agrees with
-  NumPy's outcome `s` — if NumPy accepts: no exception, every index tuple reads NumPy's value, the state
-  is canonical (`Canon`: distinct in-range keys, no stored fill value), shape and fill unchanged; if
-  NumPy raises: an exception of the same class and an unchanged array.  `WFOp`/`WFSet` is the grammar
-  of the property (non-zero slice steps, values broadcastable to the selection, one integer list per
-  axis, masks of the array's shape); `Excluded…` are the decidable regions of the known findings.
+  the dense side (`Spec.dSetitem`, `Spec.dSetFancy`, `Spec.dSetMask`, `Spec.dStep`, `Spec.dRun`) is NumPy's
+  meaning of the same assignments on a function `index tuple → value`.  `Agrees d r s`
+  (Lemmas/DokRefine.lean): the model's outcome `r` (array afterwards, exception if any) of an assignment
+  on state `d` agrees with NumPy's outcome `s` — if NumPy accepts: no exception, every index tuple reads
+  NumPy's value, the state is canonical (`Canon`: distinct in-range keys, no stored fill value), shape and
+  fill unchanged; if NumPy raises: an exception of the same class and an unchanged array.
+  `WFOp`/`WFSet` is the grammar of the property (non-zero slice steps, values broadcastable to the
+  selection, one integer list per axis with a common length, masks of the array's shape).
 
   The slice bounds of `DOK._setitem` are `Gen.dokSliceBounds`, regenerated from the source on every
   run, and the slice normalisation is composed of the generated `_slicing.py` definitions: editing
   either changes what is proved here.
 
-  When `start = ind.start or self.shape[i] - 1` is repaired upstream, `setitem_refines_counterexample` and
-  `counterexample_negStepStart0` stop checking (that is the signal).  Then: delete those two, add
-    theorem gen_is_fixed : Gen.dokSliceBounds = dokSliceBoundsFixed := by
-      funext a b c d; simp only [Gen.dokSliceBounds, dokSliceBoundsFixed]; cases a <;> cases b <;> cases c <;> grind
-  (checked against the generated definition of the patched source), and `setitem_refines_full_of_fixed
-  gen_is_fixed` is the full theorem; drop `Excluded_negStepStart0` from `Spec.Excluded` and use it in
-  place of `setitem_refines_partial` inside `step_refines_partial`.
+  History.  Until /repo commits 5f937a6, 51373e1, e3a3b01, 6ad05a9, daad09e the code violated the
+  statements below on seven regions (negative step with normalised start 0; tuples of integers on 1-d
+  arrays; the empty tuple; un-normalised index-list entries; empty index lists; one-element values for
+  index lists; boolean masks): this file then held `…_partial` theorems under `Excluded…` predicates and
+  one proved counterexample per region.  All seven are repaired; the statements are now proved for the
+  whole grammar and no region is excluded.  The former witnesses are kept as examples (and in the
+  harness corpus), now showing agreement.
 -/
 import SparseV.Lemmas.DokRefine
 namespace SparseV.C12
@@ -83,48 +83,16 @@ theorem setitem_refines_of_bounds [DecidableEq α]
   | ok a' => exact h.1 a' hs
   | error e => exact h.2 e hs
 
-/-- the full statement for the code as it is: every key in the grammar -/
-def Statement_setitem_refines : Prop :=
-  ∀ (d : DOK Int) (key : List KeyPart) (v : Val Int), Canon d → WFSet d.shape key v →
-    Agrees d (setitem d key v) (dSetitem d.shape (get d) key v)
+/-- **gen_is_fixed.**  The slice bounds `DOK._setitem` computes — `Gen.dokSliceBounds`, regenerated from
+the source on every run — are the reference bounds `dokSliceBoundsFixed` (a missing part is recognised
+by `is None`, never by truthiness).  An edit of the bound computation that changes its value for any
+input breaks this theorem (as `start = ind.start or self.shape[i] - 1` did until commit 5f937a6). -/
+theorem gen_is_fixed : Gen.dokSliceBounds = dokSliceBoundsFixed := by
+  funext a b c d
+  simp only [Gen.dokSliceBounds, dokSliceBoundsFixed]
+  cases a <;> cases b <;> cases c <;> grind
 
-/-- the witness: `d = DOK((5,)); d[0::-1] = 7` -/
-def exNeg : DOK Int := { shape := [5], entries := [], fill := 0 }
-
-/-- **setitem_refines_counterexample.**  `DOK((5,))[0::-1] = 7` also sets element 4 (NumPy sets
-element 0 only): the full statement is false of the code as it is (`start = ind.start or …`). -/
-theorem setitem_refines_counterexample : ¬ Statement_setitem_refines := by
-  intro h
-  have h1 := h exNeg [.slice (some 0) none (some (-1))] (Val.scalar 7) (by decide)
-    ⟨by decide, fun sels hs => by
-      simp only [padKey, exNeg] at hs
-      have : sels = [Sel.range [0]] := by
-        have h2 : rangeOf (pyAdjust (some 0) none ((some (-1) : Option Int).getD 1) ((5 : Nat) : Int)) = [0] := by decide
-        simp only [List.length_cons, List.length_nil, Nat.sub_self, List.replicate_zero, List.append_nil,
-          pySels, pySel, h2, Except.ok.injEq] at hs
-        exact hs.symm
-      subst this
-      decide⟩
-  have h2 := agreesAt_of_agrees h1 [4]
-  revert h2
-  decide
-
-/-- **setitem_refines_partial.**  Outside the region `Excluded_negStepStart0` (some slice of the key has
-a negative step, a normalised start of 0 and an axis longer than 1) the code as it is — bounds
-`Gen.dokSliceBounds`, generated from `DOK._setitem` — agrees with NumPy's assignment. -/
-theorem setitem_refines_partial [DecidableEq α] (d : DOK α) (key : List KeyPart) (v : Val α)
-    (hc : Canon d) (hwf : WFSet d.shape key v) (hex : Excluded_negStepStart0 d.shape key = false) :
-    Agrees d (setitem d key v) (dSetitem d.shape (get d) key v) := by
-  have h := setitemWith_refines Gen.dokSliceBounds d key v hc hwf.1
-    (slicesOK_gen _ _ (padKey_stepNonzero key _ hwf.1) hex) hwf.2
-  unfold Agrees setitem
-  cases hs : dSetitem d.shape (get d) key v with
-  | ok a' => exact h.1 a' hs
-  | error e => exact h.2 e hs
-
-/-- **setitem_refines_fixed.**  With the negative-step start read as `ind.start if ind.start is not
-None else …` (`dokSliceBoundsFixed`) the statement holds for EVERY key in the grammar: this is what
-`setitem_refines_partial` becomes, with the same proof, once the generated definition changes. -/
+/-- **setitem_refines_fixed.**  The reference bounds satisfy the statement for every key in the grammar. -/
 theorem setitem_refines_fixed [DecidableEq α] (d : DOK α) (key : List KeyPart) (v : Val α)
     (hc : Canon d) (hwf : WFSet d.shape key v) :
     Agrees d (setitemWith dokSliceBoundsFixed d key v) (dSetitem d.shape (get d) key v) := by
@@ -135,15 +103,16 @@ theorem setitem_refines_fixed [DecidableEq α] (d : DOK α) (key : List KeyPart)
   | ok a' => exact h.1 a' hs
   | error e => exact h.2 e hs
 
-/-- **setitem_refines_full_of_fixed.**  The switch: the day the generated bounds equal the repaired ones
-(`Gen.dokSliceBounds = dokSliceBoundsFixed`, a one-line `funext`/`simp` fact once
-`start = ind.start or …` is gone from `_setitem`), the code satisfies the statement for EVERY key in the
-grammar and `Excluded_negStepStart0` disappears. -/
-theorem setitem_refines_full_of_fixed [DecidableEq α] (hgen : Gen.dokSliceBounds = dokSliceBoundsFixed)
-    (d : DOK α) (key : List KeyPart) (v : Val α) (hc : Canon d) (hwf : WFSet d.shape key v) :
+/-- **setitem_refines.**  The code as it is (bounds generated from `DOK._setitem`), EVERY key in the
+grammar — integers of either sign, slices with any non-zero step and any start/stop, short keys, the
+empty tuple — and every scalar or broadcastable array value: `d[key] = value` agrees with NumPy's
+assignment (same selected index set, same broadcasting, IndexError exactly when NumPy raises it, state
+canonical afterwards).  No excluded region. -/
+theorem setitem_refines [DecidableEq α] (d : DOK α) (key : List KeyPart) (v : Val α)
+    (hc : Canon d) (hwf : WFSet d.shape key v) :
     Agrees d (setitem d key v) (dSetitem d.shape (get d) key v) := by
   unfold setitem
-  rw [hgen]
+  rw [gen_is_fixed]
   exact setitem_refines_fixed d key v hc hwf
 
 /-- **dSetSel_scalar.**  What the dense side means for a scalar: exactly the index tuples the key
@@ -157,127 +126,57 @@ theorem dSetSel_scalar (a : Dense α) (sels : List Sel) (x : α) (k : DKey) :
   | some p => simp [bcastGet, Val.scalar, ravel]
 
 /-- non-vacuity of (b): a negative-step slice with an array value on a 2×3 array, then the same
-selection assigned the fill value (everything deleted again) -/
+selection assigned the fill value (everything deleted again); and the former witnesses of the
+negative-step defect, `d[0::-1] = 7` and `d[-10:0:-1] = 7` on `DOK((5,))`, now set element 0 only / nothing -/
 def exE : DOK Int := { shape := [2, 3], entries := [], fill := 0 }
+def exNeg : DOK Int := { shape := [5], entries := [], fill := 0 }
 example :
     (setitem exE [.int (-1), .slice none none (some (-2))] ⟨[2], [8, 9]⟩).1.entries = [([1, 2], 8), ([1, 0], 9)]
-    ∧ Excluded_negStepStart0 exE.shape [.int (-1), .slice none none (some (-2))] = false
     ∧ (setitem (setitem exE [.int (-1), .slice none none (some (-2))] ⟨[2], [8, 9]⟩).1
-        [.slice none none none, .slice none none none] (Val.scalar 0)).1.entries = [] := by decide
+        [.slice none none none, .slice none none none] (Val.scalar 0)).1.entries = []
+    ∧ (setitem exNeg [.slice (some 0) none (some (-1))] (Val.scalar 7)).1.entries = [([0], 7)]
+    ∧ (setitem exNeg [.slice (some (-10)) (some 0) (some (-1))] (Val.scalar 7)).1.entries = [] := by decide
 
-/-! ### (c) every history -/
+/-! ### (c) every key form, every history -/
 
-/-- the full statement for one assignment of any form in the grammar -/
-def Statement_step_refines : Prop :=
-  ∀ (d : DOK Int) (op : Op Int), Canon d → WFOp d.shape op = true →
-    Agrees d (step d op) (dStep d.shape (get d) op)
+/-- **fancy_refines.**  One integer list per axis (entries anywhere in `[-dim, dim)`, repeated keys, empty
+lists; scalar, `n`-element or one-element value): `d[idx0, idx1, …] = value` agrees with NumPy, and
+raises IndexError without changing anything exactly when an entry is out of range. -/
+theorem fancy_refines [DecidableEq α] (d : DOK α) (idxs : List (List Int)) (v : Val α) (hc : Canon d)
+    (hwf : WFOp d.shape (.fancy idxs v) = true) :
+    Agrees d (setFancy d idxs v) (dSetFancy d.shape (get d) idxs v) :=
+  setFancy_refines d idxs v hc hwf
 
-/-- **step_refines_partial.**  One assignment of any form in the grammar (`WFOp`) outside the known
-regions (`Excluded`: negative step with normalised start 0; a tuple of integers on a 1-d array other
-than one in-range integer; the empty tuple; index lists with an entry outside `[0, dim)`, empty index
-lists, a one-element array value for several listed elements; boolean masks) agrees with NumPy. -/
-theorem step_refines_partial [DecidableEq α] (d : DOK α) (op : Op α) (hc : Canon d)
-    (hwf : WFOp d.shape op = true) (hex : Excluded d.shape op = false) :
+/-- **mask_refines.**  A boolean mask of the array's shape: `d[mask] = value` agrees with NumPy (the True
+positions in row-major order receive the scalar, or the values one by one). -/
+theorem mask_refines [DecidableEq α] (d : DOK α) (m : List Bool) (v : Val α) (hc : Canon d)
+    (hwf : WFOp d.shape (.mask m v) = true) :
+    Agrees d (setMask d m v) (dSetMask d.shape (get d) m v) :=
+  setMask_refines d m v hc hwf
+
+/-- **step_refines.**  One assignment of ANY form in the grammar of the property (`WFOp`): key of integers
+and slices (including the empty tuple and tuples of integers on 1-d arrays), one integer list per axis,
+boolean mask; scalar or broadcastable array value — agrees with NumPy.  No excluded region. -/
+theorem step_refines [DecidableEq α] (d : DOK α) (op : Op α) (hc : Canon d) (hwf : WFOp d.shape op = true) :
     Agrees d (step d op) (dStep d.shape (get d) op) := by
   cases op with
-  | mask m v => simp [Excluded] at hex
-  | fancy idxs v =>
-    obtain ⟨a', hs, h1, h2, h3, h4, h5⟩ := setFancy_refines d idxs v hc hwf hex
-    simp only [step, dStep, Agrees, hs]
-    exact ⟨h1, h2, h3, h4, h5⟩
-  | set bare key v =>
-    simp only [Excluded, Bool.or_eq_false_iff] at hex
-    obtain ⟨⟨hneg, htup⟩, hemp⟩ := hex
-    have hws := wfSet_of_wfOp hwf
-    simp only [step, dStep]
-    cases hroute : tupleRoute d.shape bare key with
-    | none =>
-      have hnot : ¬ (key = [] ∧ bare = false) := by
-        intro hh
-        simp [Excluded_emptyTupleKey, hh.1, hh.2] at hemp
-      simp only [hnot, if_false]
-      exact setitem_refines_partial d key v hc hws hneg
-    | some ints =>
-      exact tupleRoute_refines d bare key v ints hc hws hroute htup
+  | mask m v => exact setMask_refines d m v hc hwf
+  | fancy idxs v => exact setFancy_refines d idxs v hc hwf
+  | set key v => exact setitem_refines d key v hc (wfSet_of_wfOp hwf)
 
-/-- `∃` a canonical state and an assignment in the grammar, inside the given region, on which the
-code as it is does not agree with NumPy (witness checked at index tuple `k`) -/
-def Disagrees (region : List Nat → Op Int → Bool) : Prop :=
-  ∃ (d : DOK Int) (op : Op Int), Canon d ∧ WFOp d.shape op = true ∧ region d.shape op = true ∧
-    ¬ Agrees d (step d op) (dStep d.shape (get d) op)
-
-def ex3 : DOK Int := { shape := [3], entries := [], fill := 0 }
-def ex23 : DOK Int := { shape := [2, 3], entries := [], fill := 0 }
-
-/-- **counterexample_negStepStart0.** `DOK((5,))[0::-1] = 7` also sets element 4. -/
-theorem counterexample_negStepStart0 :
-    Disagrees (fun s op => match op with | .set _ key _ => Excluded_negStepStart0 s key | _ => false) :=
-  ⟨exNeg, .set true [.slice (some 0) none (some (-1))] (Val.scalar 7), by decide, by decide, by decide,
-    fun h => absurd (agreesAt_of_agrees h [4]) (by decide)⟩
-
-/-- **counterexample_tupleRoute.** On a 1-d array `d[-1,] = 7` stores the key `(-1,)`: element 2 still
-reads the fill value. (`d[1, 2] = 7` — too many indices for NumPy — is accepted and sets two elements.) -/
-theorem counterexample_tupleRoute :
-    Disagrees (fun s op => match op with | .set bare key _ => Excluded_tupleRoute s bare key | _ => false) :=
-  ⟨ex3, .set false [.int (-1)] (Val.scalar 7), by decide, by decide, by decide,
-    fun h => absurd (agreesAt_of_agrees h [2]) (by decide)⟩
-
-theorem counterexample_tupleRoute_tooMany :
-    Disagrees (fun s op => match op with | .set bare key _ => Excluded_tupleRoute s bare key | _ => false) :=
-  ⟨ex3, .set false [.int 1, .int 2] (Val.scalar 7), by decide, by decide, by decide,
-    fun h => absurd (agreesAt_of_agrees h [1]) (by decide)⟩
-
-/-- **counterexample_emptyTupleKey.** `d[()] = 4` raises IndexError (NumPy assigns 4 to every element). -/
-theorem counterexample_emptyTupleKey :
-    Disagrees (fun _ op => match op with | .set bare key _ => Excluded_emptyTupleKey bare key | _ => false) :=
-  ⟨ex3, .set false [] (Val.scalar 4), by decide, by decide, by decide,
-    fun h => absurd (agreesAt_of_agrees h [0]) (by decide)⟩
-
-/-- **counterexample_fancyRawIndex.** `d[[-1]] = 7` stores the key `(-1,)`. -/
-theorem counterexample_fancyRawIndex :
-    Disagrees (fun s op => match op with | .fancy idxs _ => Excluded_fancyRawIndex s idxs | _ => false) :=
-  ⟨ex3, .fancy [[-1]] (Val.scalar 7), by decide, by decide, by decide,
-    fun h => absurd (agreesAt_of_agrees h [2]) (by decide)⟩
-
-/-- **counterexample_fancyEmpty.** `d[[]] = 5` raises IndexError (NumPy: nothing to assign, no error). -/
-theorem counterexample_fancyEmpty :
-    Disagrees (fun _ op => match op with | .fancy idxs _ => Excluded_fancyEmpty idxs | _ => false) :=
-  ⟨ex3, .fancy [[]] (Val.scalar 5), by decide, by decide, by decide,
-    fun h => absurd (agreesAt_of_agrees h [0]) (by decide)⟩
-
-/-- **counterexample_fancyBcast1.** `d[[0, 1], [2, 1]] = [5]` raises ValueError (NumPy broadcasts the 5). -/
-theorem counterexample_fancyBcast1 :
-    Disagrees (fun _ op => match op with | .fancy idxs v => Excluded_fancyBcast1 idxs v | _ => false) :=
-  ⟨ex23, .fancy [[0, 1], [2, 1]] ⟨[1], [5]⟩, by decide, by decide, by decide,
-    fun h => absurd (agreesAt_of_agrees h [0, 2]) (by decide)⟩
-
-/-- **counterexample_mask.** `d[mask] = 7` raises IndexError: boolean masks are not supported at all,
-so there is no partial theorem for them (`Excluded` contains every mask assignment). -/
-theorem counterexample_mask :
-    Disagrees (fun _ op => match op with | .mask _ _ => true | _ => false) :=
-  ⟨ex3, .mask [true, false, true] (Val.scalar 7), by decide, by decide, by decide,
-    fun h => absurd (agreesAt_of_agrees h [0]) (by decide)⟩
-
-/-- **step_refines_counterexample.** The full statement is false of the code as it is. -/
-theorem step_refines_counterexample : ¬ Statement_step_refines := by
-  intro h
-  obtain ⟨d, op, hc, hwf, _, hno⟩ := counterexample_mask
-  exact hno (h d op hc hwf)
-
-/-- **dok_history.**  For EVERY finite sequence of assignments in the grammar and outside the known
-regions, starting from any canonical state: after the whole sequence every index tuple reads what
-a NumPy array with the same initial contents holds after the same assignments (an assignment NumPy
-rejects changes nothing on either side), and the state is canonical — so every reachable state is. -/
+/-- **dok_history.**  For EVERY finite sequence of assignments in the grammar, starting from any
+canonical state: after the whole sequence every index tuple reads what a NumPy array with the same
+initial contents holds after the same assignments (an assignment NumPy rejects changes nothing on
+either side), and the state is canonical — so every reachable state is. -/
 theorem dok_history [DecidableEq α] (ops : List (Op α)) : ∀ (d : DOK α), Canon d →
-    (∀ op ∈ ops, WFOp d.shape op = true ∧ Excluded d.shape op = false) →
+    (∀ op ∈ ops, WFOp d.shape op = true) →
     (∀ k, get (run d ops) k = dRun d.shape (get d) ops k) ∧ Canon (run d ops) ∧
       (run d ops).shape = d.shape ∧ (run d ops).fill = d.fill := by
   induction ops with
   | nil => intro d hc _; exact ⟨fun _ => rfl, hc, rfl, rfl⟩
   | cons op ops ih =>
     intro d hc hops
-    have hop := hops op List.mem_cons_self
-    have hstep := step_refines_partial d op hc hop.1 hop.2
+    have hstep := step_refines d op hc (hops op List.mem_cons_self)
     simp only [run, dRun]
     unfold Agrees at hstep
     cases hs : dStep d.shape (get d) op with
@@ -298,7 +197,7 @@ theorem dok_history [DecidableEq α] (ops : List (Op α)) : ∀ (d : DOK α), Ca
 array that differ from the fill value: assigning the fill value removes the entry, nothing is ever
 stored twice. -/
 theorem nnz_invariant [DecidableEq α] (ops : List (Op α)) (d : DOK α) (hc : Canon d)
-    (hops : ∀ op ∈ ops, WFOp d.shape op = true ∧ Excluded d.shape op = false) :
+    (hops : ∀ op ∈ ops, WFOp d.shape op = true) :
     nnz (run d ops) = (allKeys d.shape).countP (fun k => decide (dRun d.shape (get d) ops k ≠ d.fill)) := by
   obtain ⟨hget, hc', hsh, hfi⟩ := dok_history ops d hc hops
   rw [nnz_eq_count hc', hsh, hfi]
@@ -310,7 +209,7 @@ theorem nnz_invariant [DecidableEq α] (ops : List (Op α)) (d : DOK α) (hc : C
 per axis, negative ones counting from the end) gives what the same read gives on the NumPy array:
 IndexError exactly when an integer is outside `[-dim, dim)`, else the array's element. -/
 theorem getitem_after_history [DecidableEq α] (ops : List (Op α)) (d : DOK α) (hc : Canon d)
-    (hops : ∀ op ∈ ops, WFOp d.shape op = true ∧ Excluded d.shape op = false)
+    (hops : ∀ op ∈ ops, WFOp d.shape op = true)
     (key : List Int) (hk : key.length = d.shape.length) :
     getInt (run d ops) key = match normKey key d.shape with
       | some k' => .ok (dRun d.shape (get d) ops k')
@@ -324,11 +223,30 @@ theorem getitem_after_history [DecidableEq α] (ops : List (Op α)) (d : DOK α)
 /-- non-vacuity of (c): a 3-step history on a 2×3 array — a column, then a reversed row with an array
 value that overwrites one element and deletes another (value 0 = fill), then an element deletion -/
 def exOps : List (Op Int) :=
-  [ .set false [.slice none none none, .int 1] (Val.scalar 5),
-    .set false [.int 0, .slice none none (some (-1))] ⟨[3], [1, 0, 3]⟩,
-    .set false [.int (-1), .int (-2)] (Val.scalar 0) ]
-example : (∀ op ∈ exOps, WFOp exE.shape op = true ∧ Excluded exE.shape op = false)
+  [ .set [.slice none none none, .int 1] (Val.scalar 5),
+    .set [.int 0, .slice none none (some (-1))] ⟨[3], [1, 0, 3]⟩,
+    .set [.int (-1), .int (-2)] (Val.scalar 0) ]
+example : (∀ op ∈ exOps, WFOp exE.shape op = true)
     ∧ (run exE exOps).entries = [([0, 2], 1), ([0, 0], 3)] ∧ Canon exE ∧ nnz (run exE exOps) = 2
     ∧ (getInt (run exE exOps) [-2, -1]).toOption = some 1 ∧ (getInt (run exE exOps) [2, 0]).toOption = none := by decide
+
+/-- the former witnesses of the repaired defects, as one history on `DOK((3,))`: an index list with a
+negative entry (stored as key 2), a boolean mask, the empty tuple (assigns everywhere), a one-element
+value broadcast over two listed elements, empty index lists (nothing), a tuple of one negative integer,
+and a too long tuple (IndexError, nothing changes) -/
+def ex3 : DOK Int := { shape := [3], entries := [], fill := 0 }
+def exOps3 : List (Op Int) :=
+  [ .fancy [[-1]] (Val.scalar 7),
+    .mask [true, false, false] (Val.scalar 4),
+    .set [] (Val.scalar 2),
+    .fancy [[0, -2]] ⟨[1], [5]⟩,
+    .fancy [[]] (Val.scalar 9),
+    .set [.int (-1)] (Val.scalar 0),
+    .set [.int 1, .int 2] (Val.scalar 8) ]
+example : (∀ op ∈ exOps3, WFOp ex3.shape op = true)
+    ∧ (run ex3 (exOps3.take 2)).entries = [([2], 7), ([0], 4)]
+    ∧ (run ex3 (exOps3.take 3)).entries = [([2], 2), ([0], 2), ([1], 2)]
+    ∧ (run ex3 exOps3).entries = [([0], 5), ([1], 5)]
+    ∧ (step (run ex3 (exOps3.take 6)) (.set [.int 1, .int 2] (Val.scalar 8))).2 = some .index := by decide
 
 end SparseV.C12
